@@ -284,6 +284,11 @@ func (e *Env) auditHigherLevels(c *Chain) *Violation {
 			if ent.Key.Min == ents[i-1].Key.Min && ent.Key.Max == ents[i-1].Key.Max {
 				continue // same file re-written
 			}
+			if ent.Key.Min <= prevMax {
+				v := e.fail("level-overlap", "level %d: file %s was written although the level already holds a file ending at %d: the same TXIDs are compacted twice into one level", lv, ent.Key, prevMax)
+				v.Facts["level"] = lv
+				return v
+			}
 			if ent.Key.Min != prevMax+1 {
 				v := e.fail("level-not-contiguous", "level %d: file %s written after a file ending at %d (expected to start at %d)", lv, ent.Key, prevMax, prevMax+1)
 				v.Facts["level"] = lv
